@@ -20,7 +20,7 @@ EXPLANATION = ('proof part: d = minimum row weight of the listed logicals (VC fr
 ASSUMPTIONS = [
     'C01: every listed logical commutes with all generators and anticommutes with its partner (non-trivial logical) - proved/checked there',
     'A-numpy: np.logical_or / np.sum(axis=1) / np.min are elementwise / row reductions',
-    'NOT proved: no lighter logical operator exists (lower bound) - bounded search only; deformation preserves weight (C08) so undeformed codes suffice',
+    'NOT proved: no lighter logical operator exists (lower bound) - bounded search only (undeformed and deformed objects)',
 ]
 TRUSTED_BASE = ['z3 5.1.0 (array VC; pseudo-Boolean search in the bounded layer)']
 SC = 'panqec/codes/base/_stabilizer_code.py'
@@ -146,9 +146,10 @@ def lighter_logical(code, w, timeout_ms=120000):
 
 
 def distance_job(a):
-    name, size = a
+    name, size = a[0], a[1]
+    defo, kw = (a[2], dict(a[3])) if len(a) > 2 else (None, {})
     try:
-        code = BC.make(name, size)
+        code = BC.make(name, size, defo, kw)
         d = int(code.d)
         # contract on the reported value itself
         wts = [int(np.count_nonzero(np.logical_or(r[:code.n], r[code.n:]))) for r in list(code.logicals_x) + list(code.logicals_z)]
@@ -181,7 +182,8 @@ def replay(r):
 
 def replay_file(data):
     inp = data.get('input') or {}
-    a, n, d, why = distance_job((inp['code'], tuple(inp['size'])))
+    job = (inp['code'], tuple(inp['size'])) + ((inp['deformation'], tuple(sorted((inp.get('kwargs') or {}).items()))) if inp.get('deformation') else ())
+    a, n, d, why = distance_job(job)
     return dict(confirmed=bool(why) and why != 'UNDECIDED', detail=why or 'reported d is exact', input=inp)
 
 
@@ -198,6 +200,17 @@ def bounded(tier, seed):
         for j in sorted(jobs, key=lambda j: np.prod(j[1])):
             by.setdefault(j[0], []).append(j)
         jobs = [j for v in by.values() for j in v[:8]]
+    # deformed objects (logicals may then contain Y): every deformation / axis of every class at up to 3 sizes, non-square shapes first
+    from bounded.util import deformation_variants
+    for name, cls in all_code_classes():
+        variants = [v for v in deformation_variants(cls) if v[0]]
+        if not variants:
+            continue
+        sizes = sorted(small_sizes(cls, name, 60 if tier == 'quick' else 120, 4), key=lambda s_: (len(set(s_)) == 1, int(np.prod(s_))))
+        sizes = [s_ for s_ in sizes if max(s_) >= 2][: (3 if tier == 'quick' else 8)]
+        for defo, kw in variants:
+            for size in sizes:
+                jobs.append((name, size, defo, tuple(sorted(kw.items()))))
     ev, nt, viol, samples, und = 0, set(), [], [], []
     with mp.get_context('fork').Pool(min(16, max(1, len(jobs)))) as pool:
         for a, n, d, why in pool.imap_unordered(distance_job, jobs):
@@ -209,7 +222,7 @@ def bounded(tier, seed):
             if why == 'UNDECIDED':
                 und.append(a)
             elif why:
-                viol.append(dict(obligation='C17.bounded[%s]' % a[0], input=dict(code=a[0], size=list(a[1])), detail=why))
-    return dict(bound='every class, every supported size with L <= %d and n <= %d%s; exact minimum-weight search by z3 pseudo-Boolean constraints' % (4 if tier == 'quick' else 6, maxn, ' (<= 8 sizes per class)' if tier == 'quick' else ''),
+                viol.append(dict(obligation='C17.bounded[%s]' % a[0], input=dict(code=a[0], size=list(a[1]), deformation=a[2] if len(a) > 2 else None, kwargs=dict(a[3]) if len(a) > 2 else {}), detail=why))
+    return dict(bound='every class, every supported size with L <= %d and n <= %d%s, plus every deformation / axis at up to 3 (quick) / 8 sizes, non-square first; exact minimum-weight search by z3 pseudo-Boolean constraints' % (4 if tier == 'quick' else 6, maxn, ' (<= 8 sizes per class)' if tier == 'quick' else ''),
                 evaluations=ev, distinct_nontrivial=len(nt), undecided=[list(map(str, u)) for u in und],
                 rule='(class, size): "exists e with He=0, a logical bit set, wt(e) <= d-1" must be unsat; non-trivial iff d > 1', samples=samples, violations=viol)
